@@ -222,13 +222,23 @@ def _list_buildoptions(coredata: cdata.CoreData, subprojects: T.Optional[T.List[
     test_option_names = {OptionKey('errorlogs'),
                          OptionKey('stdsplit')}
 
+    # Per-subproject overrides of non-project options ("augments") have no option
+    # object of their own. List them under the subproject-qualified name with the
+    # value get_option() returns in that subproject.
+    all_options: T.List[T.Tuple[OptionKey, options.AnyOptionType]] = list(coredata.optstore.items())
+    augmented_values: T.Dict[OptionKey, options.ElementaryOptionValues] = {}
+    for k, value in coredata.optstore.augments.items():
+        all_options.append((k, coredata.optstore.resolve_option(k)))
+        augmented_values[k] = value
+
     dir_options: options.MutableKeyedOptionDictType = {}
     test_options: options.MutableKeyedOptionDictType = {}
     core_options: options.MutableKeyedOptionDictType = {}
-    for k, v in coredata.optstore.items():
-        if k in dir_option_names:
+    for k, v in all_options:
+        root_k = k.evolve(subproject=None) if k in augmented_values else k
+        if root_k in dir_option_names:
             dir_options[k] = v
-        elif k in test_option_names:
+        elif root_k in test_option_names:
             test_options[k] = v
         elif coredata.optstore.is_builtin_option(k):
             core_options[k] = v
@@ -238,7 +248,7 @@ def _list_buildoptions(coredata: cdata.CoreData, subprojects: T.Optional[T.List[
 
     def add_keys(opts: T.Union[options.MutableKeyedOptionDictType, options.OptionStore], section: str) -> None:
         for key, opt in sorted(opts.items()):
-            optdict = {'name': str(key), 'value': opt.value, 'section': section,
+            optdict = {'name': str(key), 'value': augmented_values.get(key, opt.value), 'section': section,
                        'machine': key.machine.get_lower_case_name() if coredata.optstore.is_per_machine_option(key) else 'any'}
             if isinstance(opt, options.UserStringOption):
                 typestr = 'string'
@@ -268,10 +278,10 @@ def _list_buildoptions(coredata: cdata.CoreData, subprojects: T.Optional[T.List[
             optlist.append(optdict)
 
     add_keys(core_options, 'core')
-    add_keys({k: v for k, v in coredata.optstore.items() if coredata.optstore.is_backend_option(k)}, 'backend')
-    add_keys({k: v for k, v in coredata.optstore.items() if coredata.optstore.is_base_option(k)}, 'base')
+    add_keys({k: v for k, v in all_options if coredata.optstore.is_backend_option(k)}, 'backend')
+    add_keys({k: v for k, v in all_options if coredata.optstore.is_base_option(k)}, 'base')
     add_keys(
-        {k: v for k, v in sorted(coredata.optstore.items(), key=lambda i: i[0].machine) if coredata.optstore.is_compiler_option(k)},
+        {k: v for k, v in sorted(all_options, key=lambda i: i[0].machine) if coredata.optstore.is_compiler_option(k)},
         'compiler',
     )
     add_keys(dir_options, 'directory')
